@@ -39,6 +39,8 @@ type hEnv struct {
 	flushes int
 	reopens int
 	retires int
+	wk      int  // number of keys single writes may address (0 = all)
+	sync    int  // WALSyncMode + 1 to store in the manifest at creation (0 = default)
 	dirty   bool // a write happened since the last flush (its data may exist only in memtable + log)
 	steps   []string
 }
@@ -59,15 +61,28 @@ func (h *hEnv) hKeys(nk int) {
 func (h *hEnv) hOpen(first bool, smallMem bool) {
 	if first {
 		h.dir = vsym.Dir()
-		if smallMem {
+		if smallMem || h.sync != 0 {
 			cfg := config.NewDefaultConfig(h.dir)
-			cfg.MemTableSize = 1 // every write fills the table: versions spread over immutable tables
+			if smallMem {
+				cfg.MemTableSize = 1 // every write fills the table: versions spread over immutable tables
+			}
+			if h.sync != 0 {
+				cfg.WALSyncMode = config.SyncMode(h.sync - 1)
+				cfg.WALSyncBytes = 1 << 30
+			}
 			vsym.Assert(cfg.SaveManifest(h.dir) == nil, "SaveManifest failed")
 		}
 	}
 	e, err := NewEngineFacade(h.dir)
 	vsym.Assert(err == nil, "open failed")
 	h.e = e
+}
+
+func (h *hEnv) wkeys() int {
+	if h.wk > 0 && h.wk < h.nk {
+		return h.wk
+	}
+	return h.nk
 }
 
 // hValue picks the shape of a put value: one symbolic byte, empty, nil, or (thorough) two symbolic bytes.
@@ -110,14 +125,14 @@ func (h *hEnv) hStep(mask int, maxVK int) {
 		h.present[ki], h.val[ki] = true, v
 		h.dirty = true
 	case hPutFlush:
-		ki := vsym.IntRange("ki", 0, h.nk-1)
+		ki := vsym.IntRange("ki", 0, h.wkeys()-1)
 		v := hValue(maxVK)
 		vsym.Assert(e.Put(h.K[ki], v) == nil, "Put failed")
 		h.present[ki], h.val[ki] = true, v
 		vsym.Assert(e.FlushImMemTables() == nil, "Flush failed")
 		h.dirty = false
 	case hDelFlush:
-		ki := vsym.IntRange("ki", 0, h.nk-1)
+		ki := vsym.IntRange("ki", 0, h.wkeys()-1)
 		vsym.Assert(e.Delete(h.K[ki]) == nil, "Delete failed")
 		h.present[ki] = false
 		vsym.Assert(e.FlushImMemTables() == nil, "Flush failed")
